@@ -345,6 +345,136 @@ func c04WireOrder(r *Run, fn *ssa.Function, key string, base ssa.Value, want []s
 	r.Check(key, ok, r.FnPos(fn), fmt.Sprintf("values in wire order: %v ; required: %v", got, want))
 }
 
+// c04CopyDst decides "the bytes this copy call writes end up in the array at field path `path` of the
+// struct built in the allocation `result`". Two forms establish it: the destination is that array
+// itself, sliced whole (`result.path[:]`); or the destination is the whole array at sub-path q of a
+// separate zero local L (`L.q[:]`), path = f.q (or path = f when q is empty), nothing but this copy
+// writes L (no store into it, its address goes nowhere else), and every store to result.f (at least
+// one) stores the value of L read after the copy has run.
+func c04CopyDst(r *Run, fn *ssa.Function, key string, c ssa.CallInstruction, result, path string) {
+	args := CallArgs(c)
+	if len(args) < 1 {
+		r.Fail(key, r.Where(c), "call "+CalleeOf(c)+" has no destination")
+		return
+	}
+	got := r.D.D(args[0])
+	want := result + "." + path + "[:]"
+	if glob(want, got) {
+		// … and no store that can run after the copy writes the array, a struct it lies in, or a part of it
+		over := ""
+		if sl, ok := args[0].(*ssa.Slice); ok {
+			if a := addrBase(sl.X); a != nil {
+				an := r.D.allocName(a)
+				for _, st := range storesInto(fn, a) {
+					at := strings.TrimSuffix(strings.TrimPrefix(r.D.D(st.Addr), "&("), ")")
+					if at != an && !strings.HasPrefix(an+"."+path+".", at+".") && !strings.HasPrefix(at, an+"."+path+"[") && !strings.HasPrefix(at+".", an+"."+path+".") {
+						continue
+					}
+					if mayExecuteAfter(st, c) {
+						over = fmt.Sprintf(", but %s <- %s at %s can overwrite it afterwards", r.D.D(st.Addr), r.D.D(st.Val), r.Where(st))
+					}
+				}
+			}
+		}
+		r.Check(key, over == "", r.Where(c), fmt.Sprintf("arg 0 of %s = %s (expected %s)%s", CalleeOf(c), got, want, over))
+		return
+	}
+	fail := func(why string) {
+		r.Fail(key, r.Where(c), fmt.Sprintf("arg 0 of %s = %s (expected %s, or a whole zero local whose value is then stored there: %s)", CalleeOf(c), got, want, why))
+	}
+	sl, ok := args[0].(*ssa.Slice)
+	if !ok || sl.Low != nil || sl.High != nil || sl.Max != nil {
+		fail("not a whole-array slice")
+		return
+	}
+	// the chain of field selections from the local down to the array
+	var sub []string
+	var chain []ssa.Value
+	v := sl.X
+	for {
+		fa, isFA := v.(*ssa.FieldAddr)
+		if !isFA {
+			break
+		}
+		f := fieldOf(fa)
+		if f == nil {
+			fail("unresolved field")
+			return
+		}
+		sub = append([]string{f.Name()}, sub...)
+		chain = append(chain, fa)
+		v = fa.X
+	}
+	L, isAlloc := v.(*ssa.Alloc)
+	if !isAlloc || glob(result, r.D.allocName(L)) {
+		fail("destination is not inside a separate local")
+		return
+	}
+	q := strings.Join(sub, ".")
+	f := path
+	if q != "" {
+		if !strings.HasSuffix(path, "."+q) {
+			fail("the local's array " + q + " is not the array " + path)
+			return
+		}
+		f = strings.TrimSuffix(path, "."+q)
+	}
+	// L is written by this copy only: every use of L is the selection chain feeding the copy, or a load
+	okUse := func(user ssa.Instruction, next ssa.Value) bool {
+		if u, isV := user.(ssa.Value); isV && next != nil && u == next {
+			return true
+		}
+		return false
+	}
+	links := append([]ssa.Value{ssa.Value(sl)}, chain...) // sl, innermost FieldAddr, ..., outermost FieldAddr, then L
+	for i := len(links) - 1; i >= 0; i-- {
+		var owner ssa.Value = L
+		if i < len(links)-1 {
+			owner = links[i+1]
+		}
+		for _, u := range *owner.Referrers() {
+			if _, isDbg := u.(*ssa.DebugRef); isDbg {
+				continue
+			}
+			if okUse(u, links[i]) {
+				continue
+			}
+			if ld, isLd := u.(*ssa.UnOp); isLd && owner == ssa.Value(L) && ld.X == ssa.Value(L) {
+				continue
+			}
+			fail(fmt.Sprintf("%s is also used by %s", r.D.D(owner), r.Where(u)))
+			return
+		}
+	}
+	for _, u := range *sl.Referrers() {
+		if u != c.(ssa.Instruction) {
+			fail(fmt.Sprintf("%s is also used at %s", got, r.Where(u)))
+			return
+		}
+	}
+	if len(storesInto(fn, L)) != 0 {
+		fail("the local is also written by a store")
+		return
+	}
+	sts := r.StoresTo(fn, "&("+result+"."+f+")")
+	if len(sts) == 0 {
+		fail("no store to " + result + "." + f)
+		return
+	}
+	for _, st := range sts {
+		ld, isLd := st.Val.(*ssa.UnOp)
+		if !isLd || ld.X != ssa.Value(L) {
+			fail(fmt.Sprintf("%s <- %s at %s is not the local's value", r.D.D(st.Addr), r.D.D(st.Val), r.Where(st)))
+			return
+		}
+		if !executesBefore(c, ld) {
+			fail(fmt.Sprintf("the local is read at %s, not always after the copy", r.Where(ld)))
+			return
+		}
+	}
+	r.Pass(key, r.Where(c), fmt.Sprintf("arg 0 of %s = %s: fills the whole zero local %s, whose value read after the copy is what every store (%d) to %s.%s stores", CalleeOf(c), got, r.D.allocName(L), len(sts), result, f))
+}
+
 func baseSliceAlloc(v ssa.Value) *ssa.Alloc {
 	if s, ok := v.(*ssa.Slice); ok {
 		if a, ok := s.X.(*ssa.Alloc); ok {
@@ -522,7 +652,7 @@ func c04JSONRules(r *Run) {
 		}
 		r.Check(k+":one-success-return", len(successReturns(fn)) == 1, r.FnPos(fn), fmt.Sprintf("%d success returns", len(successReturns(fn))))
 		if c := r.OneCall(fn, k+":id", "copy"); c != nil {
-			r.ExpectArg(c, k+":id.dst", 0, "new:ct.SignedCertificateTimestamp#*.LogID.KeyID[:]")
+			c04CopyDst(r, fn, k+":id.dst", c, "new:ct.SignedCertificateTimestamp#*", "LogID.KeyID")
 			r.ExpectArg(c, k+":id.src", 1, "p0.ID")
 		}
 		lenGuard(fn, k, "p0.ID")
@@ -539,7 +669,7 @@ func c04JSONRules(r *Run) {
 		}
 		r.Check(k+":one-success-return", len(successReturns(fn)) == 1, r.FnPos(fn), fmt.Sprintf("%d success returns", len(successReturns(fn))))
 		if c := r.OneCall(fn, k+":root", "copy"); c != nil {
-			r.ExpectArg(c, k+":root.dst", 0, "new:ct.SignedTreeHead#*.SHA256RootHash[:]")
+			c04CopyDst(r, fn, k+":root.dst", c, "new:ct.SignedTreeHead#*", "SHA256RootHash")
 			r.ExpectArg(c, k+":root.src", 1, "p0.SHA256RootHash")
 		}
 		lenGuard(fn, k, "p0.SHA256RootHash")
